@@ -313,6 +313,9 @@ def rule_subset(ck: Check, repo: Repo) -> None:
                      f"printed {sorted(printed)}, verdict consults {SUBSET}", repo.loc(repo.func(f"{LINT}.format_lines_subset")))
     c01.rule_file_sets(ck, repo, "ProjectSubsetReport", "R3b")
     c01.rule_propagation(ck, repo, f"{RP}.ProjectSubsetReport.generate", "R3c", False)
+    # ... and the sibling it must agree with is held to the same table (shared with C01-R3): a key or category recorded
+    # differently by ONE of the two generate() functions is a disagreement between lint and lint-file
+    c01.rule_propagation(ck, repo, f"{RP}.ProjectReport.generate", "R3d", True)
 
 
 def rule_exit(ck: Check, repo: Repo) -> None:
